@@ -285,7 +285,7 @@ func cmdReplay(args []string) int {
 		fmt.Fprintln(os.Stderr, "unknown harness", rf.Harness)
 		return 2
 	}
-	work := filepath.Join(verifRoot, "work", "replay-"+rf.Harness)
+	work := filepath.Join(outRoot, "work", "replay-"+rf.Harness)
 	os.RemoveAll(work)
 	os.MkdirAll(work, 0o755)
 	defer os.RemoveAll(work)
